@@ -55,5 +55,15 @@ FaultObsVerdict(S, ev) ==
              THEN "altered or incomplete UTC entries returned as valid"
         ELSE IF (IF ev.ud.rc = 0 THEN ev.ud.items # S.ud ELSE ~PrefixOf(ev.ud.items, S.ud))
              THEN "altered or incomplete user data returned as valid"
+        \* sample id -> time, asked twice: whatever succeeds must agree with ALL the UTC entries written
+        \* (exact at an entry, within one unit of the line between its two neighbours)
+        ELSE IF \E i \in 1..Len(ev.utcs) : Has(S.sigs, ev.utcs[i].sig) /\
+                   LET U == S.sigs[Idx(S.sigs, ev.utcs[i].sig)].utcs
+                       A == [k \in 1..Len(U) |-> <<U[k][1], U[k][2]>>]
+                       Bad(x0, rc, t) == rc = 0 /\ Len(A) >= 2 /\ x0 >= A[1][1] /\ x0 <= A[Len(A)][1]
+                                         /\ (~ExactAtAnchors(A, x0, t) \/ ~InterpOk(A, x0, t))
+                   IN \E j \in 1..Len(ev.utcs[i].conv) :
+                          LET r == ev.utcs[i].conv[j] IN Bad(r[1], r[2], r[3]) \/ Bad(r[1], r[4], r[5])
+             THEN "a time conversion on the altered file disagrees with the UTC entries written"
         ELSE ""
 ==========================================================================
